@@ -82,8 +82,7 @@ theorem stepL_wf {p p' : PS} (a : Act) (ha : a.inRange) (h : PWf p) (hs : stepL 
     split at hs
     · cases hs
     · split at hs
-      · cases hs
-      · rename_i f rest hnbind hba
+      · rename_i f rest hba
         have hf : f.wf := h.ba (.frame f) (by rw [hba]; simp)
         have hg := h.a.processFrame f hf false
         split at hs
@@ -112,6 +111,14 @@ theorem stepL_wf {p p' : PS} (a : Act) (ha : a.inRange) (h : PWf p) (hs : stepL 
     · cases hs
     · cases hs
       exact { h with a := Good.runRetries (e := { p.a with retryq := [] }) { h.a with } _ }
+  | bindReq req bt host port =>
+    simp only [stepL] at hs
+    split at hs
+    · cases hs
+    · cases hs; exact { h with a := h.a.appBindReq req bt host port ha }
+  | bindNext => simp only [stepL] at hs; cases hs; exact { h with a := h.a.appBindNext }
+  | bindReply k acc => simp only [stepL] at hs; cases hs; exact { h with a := h.a.appBindReply k acc }
+  | bindDrop k => simp only [stepL] at hs; cases hs; exact { h with a := h.a.appBindDrop k }
 
 theorem step_wf {p p' : PS} (s : Side) (a : Act) (ha : a.inRange) (h : PWf p) (hs : step p s a = some p') : PWf p' := by
   cases s with
